@@ -133,6 +133,14 @@ func runC16(c *fw.Case) {
 			}
 			en := st.Add(time.Duration(1+r.Intn(30000)) * time.Hour)
 			cva := vestingtypes.NewContinuousVestingAccountRaw(vestingtypes.NewBaseVestingAccount(authtypes.NewBaseAccount(addr, nil, 0, 0), ov, en.Unix()), st.Unix())
+			if r.Intn(2) == 0 {
+				// the account has staked: part of its vesting and some free coins are delegated
+				dv := new(big.Int).Rand(r, new(big.Int).Add(ov.AmountOf(vDenom).BigInt(), big.NewInt(1)))
+				if dv.Sign() > 0 {
+					cva.DelegatedVesting = sdk.NewCoins(sdk.NewCoin(vDenom, sdk.NewIntFromBigInt(dv)))
+				}
+				cva.DelegatedFree = sdk.NewCoins(sdk.NewCoin(vDenom, sdk.NewInt(int64(1+r.Intn(1000000)))))
+			}
 			accs = append(accs, chain.GenAccount{Account: cva, Coins: ov})
 			shiftPre[a] = cva
 		case 3:
